@@ -121,6 +121,7 @@ Fixpoint item_of_decl (d : decl) : option item :=
   | DVar {| v_ty := t; v_name := n; v_default := None |} => Some (IVar t n)
   | DFwd {| fw_virtual := v; fw_tn := Typename [] (NStr n) []; fw_parent := None |} => Some (IFwd v n)
   | DInclude h => Some (IInc h)
+  | DEnum {| e_name := n; e_items := l |} => Some (IEnum n l)
   | _ => match fn_of_decl d with Some x => Some (IFn x) | None => None end
   end.
 Fixpoint items_of_decls (l : list decl) : option (list item) :=
@@ -149,6 +150,7 @@ Proof.
   - destruct fw as [v [ns [n|o] insts] [pa|]]; cbn [item_of_decl fn_of_decl] in H; try discriminate;
       destruct ns; try discriminate; destruct insts; try discriminate. inversion H; subst i. reflexivity.
   - cbn [item_of_decl] in H. inversion H; subst i. reflexivity.
+  - destruct e as [en el]. cbn [item_of_decl] in H. inversion H; subst i. reflexivity.
   - destruct v as [t n [dflt|]]; cbn [item_of_decl fn_of_decl] in H; [discriminate|]. inversion H; subst i. reflexivity.
   - rewrite item_of_ns in H. destruct (items_of_decls ds) as [b|] eqn:E; [|discriminate]. inversion H; subst i. cbn [idecl]. f_equal.
     cbn [idepth] in Hd.
@@ -183,17 +185,24 @@ Fixpoint wf_itemb (i : item) : bool :=
   | IVar t n => wf_tyb t && Nat.ltb (depth t) depth_fuel && head_okb t && is_ident (chars_of n)
   | IFwd _ n => is_ident (chars_of n)
   | IInc h => path_okb_c (chars_of h)
+  | IEnum n l => is_ident (chars_of n) && negb (memc (chars_of n) [chars_of "class"; chars_of "struct"]) && negb (nilb l)
+                 && forallb (fun y => is_ident (chars_of y)) l
   | INs n b => is_ident (chars_of n) && forallb wf_itemb b
   end.
 Lemma wf_itemb_ok : forall k i, idepth i < k -> wf_itemb i = true -> wf_item i.
 Proof.
-  induction k as [|k IH]; intros i Hd H; [lia|]. destruct i as [x|t n|vt n|hd|n b]; cbn [wf_itemb wf_item] in *.
+  induction k as [|k IH]; intros i Hd H; [lia|]. destruct i as [x|t n|vt n|hd|en el|n b]; cbn [wf_itemb wf_item] in *.
   - apply wf_fnb_ok. exact H.
   - apply andb_true_iff in H. destruct H as [H H4]. apply andb_true_iff in H. destruct H as [H H3].
     apply andb_true_iff in H. destruct H as [H1 H2]. apply Nat.ltb_lt in H2.
     split; [apply (wf_tyb_ok _ _ H2 H1)|]. split; [exact H2|]. split; [apply head_okb_ok; exact H3 | exact H4].
   - exact H.
   - apply path_okb_c_ok. exact H.
+  - apply andb_true_iff in H. destruct H as [H H4]. apply andb_true_iff in H. destruct H as [H H3].
+    apply andb_true_iff in H. destruct H as [H1 H2]. unfold wf_enum. split; [exact H1|].
+    unfold memc in H2. destruct (in_dec chars_dec (chars_of en) [chars_of "class"; chars_of "struct"]) as [i|ni]; [discriminate|].
+    split; [intros E; apply ni; left; symmetry; exact E|]. split; [intros E; apply ni; right; left; symmetry; exact E|].
+    split; [intros E; subst el; discriminate|]. apply Forall_forall. intros y Hy. rewrite forallb_forall in H4. apply H4. exact Hy.
   - apply andb_true_iff in H. destruct H as [H1 H2]. split; [exact H1|]. cbn [idepth] in Hd.
     assert (Hb : forall j, In j b -> wf_item j).
     { intros j Hj. apply IH; [pose proof (idepth_ge b j Hj); lia | rewrite forallb_forall in H2; apply H2; exact Hj]. }
